@@ -164,8 +164,8 @@ def render_cases(maxblocks=3):
     kinds = list(BLOCKS)
     for n in (1, 2, 3)[:maxblocks]:
         for combo in itertools.product(kinds, repeat=n):
-            if n == 3 and (hash(combo) % 7) != 0:
-                continue
+            if n == 3 and (hash(combo) % 7) != 0 and not realrun.thorough():
+                continue            # quick tier: a seventh of the three-block bodies (PYTHONHASHSEED is fixed by bin/check); thorough tier: all of them
             for sep in SEPS:
                 lines = []
                 for i, k in enumerate(combo):
@@ -305,4 +305,21 @@ def common_cases():
             want = [(f"blk{k}", ["commonw1", "commonw2"]) for k in range(nblocks)]
             if got != want:
                 return {"confirmed": True, "input": {"source": src}, "actual": got, "expected": want, "how": f"real parser: doc_list of the blocks of one COMMON statement ({style} comment, {nblocks} blocks)"}
+    return None
+
+
+def inherited_component_metadata():
+    """leading metadata lines set the metadata of the entity they document - also for a component of a type that another type extends"""
+    src = ("module m\n  type :: base\n    integer :: n\n      !! deprecated: true\n      !! version: 3\n      !!\n      !! componentw1 componentw2\n  end type base\n"
+           "  type, extends(base) :: child\n    integer :: own\n      !! version: 4\n      !!\n      !! ownw1\n  end type child\nend module m\n")
+    proj = realrun.build_project({"src/m.f90": src}, display=["public", "private", "protected"])
+    types = {t.name: t for t in proj.types}
+    n = [v for v in types["base"].variables if v.name == "n"][0]
+    inherited = [v for v in types["child"].variables if v.name == "n"]
+    own = [v for v in types["child"].variables if v.name == "own"][0]
+    got = {"base%n": (bool(n.meta.deprecated), str(n.meta.version), " ".join(n.doc_list).split()), "child%n is base%n": bool(inherited) and inherited[0] is n,
+           "child%own": (bool(own.meta.deprecated), str(own.meta.version), " ".join(own.doc_list).split())}
+    want = {"base%n": (True, "3", ["componentw1", "componentw2"]), "child%n is base%n": True, "child%own": (False, "4", ["ownw1"])}
+    if got != want:
+        return {"confirmed": True, "input": {"source": src}, "actual": got, "expected": want, "how": "real pipeline (Project.correlate): metadata and documentation of the components of a type and of its extension"}
     return None
